@@ -159,6 +159,18 @@ CLAIMS = {
               "nested classes only as separate top-level-like classes."),
         technique="Lean 4 proof (case analysis of the decision list, list filter lemmas) + differential check on generated classes",
         ref="DESIGN.md §3 C16"),
+    "C18": dict(
+        text=("Kernel-checked theorems about the file-placement decision procedure for every rule set, every path and every regex "
+              "semantics (matching is a parameter): the governing directory rule really contains the file component-wise "
+              "(governing_rule_contains, repaired matcher), an allow/deny pair yields a violation iff it is violated with deny taking "
+              "precedence (pair_exact), files satisfying all applicable rules and all files under an empty configuration are never "
+              "reported, at most one violation per rule family, the verdict is a function of the relative path and rule set only. The "
+              "model is executed with Python's re.search matrix and compared with `thailint file-placement` (path, full message, exit) "
+              "on generated rule sets x 17 paths; invalid patterns must exit 2. One genuine defect repaired (string-prefix matching)."),
+        note=("Python's re is a parameter of the theorems and trusted in the run; reading of the statement: global_deny / global_patterns "
+              "apply to every file, also to files covered by a directory rule (the conjunctive reading)."),
+        technique="Lean 4 proof (case analysis + induction over the rule list, regex semantics as a parameter) + differential check",
+        ref="DESIGN.md §3 C18"),
 }
 ALL = [f"C{n:02d}" for n in range(1, 21)]
 NOT_YET = "machinery for this property is not built yet in this revision of /verif (planned, see DESIGN.md §3); not claimed"
